@@ -1,5 +1,5 @@
 //! C18: JSON escaping, inline substitution, string literals
-use crate::sx::{self, Sx};
+use fharness::sx::{self, Sx};
 use fend_core::verif_hooks::InlineFendResultComponent as P;
 
 fn part(p: &P) -> Sx {
@@ -7,7 +7,7 @@ fn part(p: &P) -> Sx {
     sx::l(vec![sx::s(k), sx::cps(p.get_contents())])
 }
 
-pub fn run(op: &str, args: &[Sx]) -> Option<Sx> {
+fn run(op: &str, args: &[Sx]) -> Option<Sx> {
     Some(match op {
         "json-escape" => {
             let Some(t) = args.first().and_then(Sx::as_cp_string) else { return Some(sx::bad()) };
@@ -19,7 +19,7 @@ pub fn run(op: &str, args: &[Sx]) -> Option<Sx> {
         "inline" => {
             let Some(t) = args.first().and_then(Sx::as_cp_string) else { return Some(sx::bad()) };
             let mut ctx = fend_core::Context::new();
-            let r = fend_core::substitute_inline_fend_expressions(&t, &mut ctx, &crate::NeverInt);
+            let r = fend_core::substitute_inline_fend_expressions(&t, &mut ctx, &fharness::NeverInt);
             sx::l(vec![sx::s("ok"), sx::l(r.get_parts().iter().map(part).collect()), sx::s(&r.to_json())])
         }
         // (eval-seq (cps) (cps) ...) -> (("ok" (cps)) | ("err" (cps)) ...) on one fresh context
@@ -28,7 +28,7 @@ pub fn run(op: &str, args: &[Sx]) -> Option<Sx> {
             let mut outs = vec![];
             for a in args {
                 let Some(t) = a.as_cp_string() else { return Some(sx::bad()) };
-                outs.push(match fend_core::evaluate_with_interrupt(&t, &mut ctx, &crate::NeverInt) {
+                outs.push(match fend_core::evaluate_with_interrupt(&t, &mut ctx, &fharness::NeverInt) {
                     Ok(r) => sx::l(vec![sx::s("o"), sx::cps(r.get_main_result())]),
                     Err(m) => sx::l(vec![sx::s("e"), sx::cps(&m)]),
                 });
@@ -38,3 +38,5 @@ pub fn run(op: &str, args: &[Sx]) -> Option<Sx> {
         _ => return None,
     })
 }
+
+fn main() { fharness::serve(run); }
